@@ -40,6 +40,10 @@ def check(repo, col, tier):
     _c02.channel_current_rows(repo, col, "R-C15-currents")
     col.rule("R-C15-scheme", "each solver name runs its scheme: backward Euler with dt, Crank-Nicolson as 2*V(dt/2) - V, forward Euler explicitly", 10)
     c01_solver._scheme(repo, col, "R-C15-scheme")
+    # the level schedule of a network keeps every level of every cell (shared with C01/C12): a cell deeper than its neighbours is
+    # otherwise only partly eliminated, and no refinement of the grid makes that converge
+    col.rule("R-C15-merge", "merged level schedule contains every level of every cell", 1)
+    c01_solver._merge(repo, col, "R-C15-merge")
     col.rule("R-C15-schedule", "the level sweeps of the custom solvers triangulate and back-substitute every level with its own accessors", 8)
     c01_solver._schedule(repo, col, "R-C15-schedule")
     col.rule("R-C15-ends", "branch-point edges attach at each branch's own first / last compartment", 4)
